@@ -32,11 +32,12 @@ REPO = os.environ.get("VERIF_REPO", "/repo")
 
 
 class Outcome:
-    __slots__ = ("clause", "props", "status", "holes", "ms", "detail", "path")
+    __slots__ = ("clause", "props", "status", "holes", "ms", "detail", "path", "internal")
 
-    def __init__(self, clause, props, status, holes=None, ms=0.0, detail=None, path=None):
+    def __init__(self, clause, props, status, holes=None, ms=0.0, detail=None, path=None, internal=None):
         self.clause, self.props, self.status = clause, props, status
         self.holes, self.ms, self.detail, self.path = holes, ms, detail, path
+        self.internal = internal      # text: this clause has no native counterpart (frame / ghost obligations)
 
 
 class StopPath(Exception):
@@ -55,8 +56,8 @@ class Env:
     def ensure(self, clause, cond, props=(), detail=None):
         raise NotImplementedError
 
-    def fail(self, clause, props=(), detail=None):
-        return self.ensure(clause, False, props, detail)
+    def fail(self, clause, props=(), detail=None, internal=None):
+        return self.ensure(clause, False, props, detail, internal=internal)
 
     def stop(self):
         raise StopPath()
@@ -143,8 +144,9 @@ class SymEnv(Env):
             out[k] = v.as_long()
         return out
 
-    def ensure(self, clause, cond, props=(), detail=None):
+    def ensure(self, clause, cond, props=(), detail=None, internal=None):
         t0 = time.time()
+        self._internal = internal
         if isinstance(cond, SymBool):
             cond = cond.e
         if cond is not True and cond is not False:
@@ -177,7 +179,8 @@ class SymEnv(Env):
                 return True
             if r == z3.sat:
                 holes = self._model_holes(s.model())
-                self.outcomes.append(Outcome(clause, props, "failed", holes=holes, ms=(time.time() - t0) * 1000))
+                self.outcomes.append(Outcome(clause, props, "failed", holes=holes, ms=(time.time() - t0) * 1000,
+                                             internal=self._internal))
                 return False
             self.outcomes.append(Outcome(clause, props, "undecided", ms=(time.time() - t0) * 1000,
                                          detail=s.reason_unknown()))
@@ -257,7 +260,7 @@ class NativeEnv(Env):
                 out.append(p)
         return "".join(out)
 
-    def ensure(self, clause, cond, props=(), detail=None):
+    def ensure(self, clause, cond, props=(), detail=None, internal=None):
         ok = bool(cond)
         d = None
         if not ok and detail is not None:
@@ -301,6 +304,23 @@ def _agg(res, o):
 def explore_cell(lemma, cell, interp, timeout_ms=10000, max_paths=4000, replay=True):
     res = CellResult(lemma.name, cell)
     t0 = time.time()
+    if cell.get("native_only"):
+        # a check that only exists on the real interpreter (process-level behaviour): run natively once; always `bounded`
+        env = NativeEnv({})
+        try:
+            lemma.run(env, cell)
+        except (PathAbort, StopPath):
+            pass
+        except Exception as e:  # noqa
+            res.errors.append("native-only cell crashed: %s\n%s" % (e, traceback.format_exc()[-800:]))
+        res.paths = 1
+        for o in env.outcomes:
+            _agg(res, o)
+            if o.status == "failed":
+                res.failures.append({"clause": o.clause, "props": sorted(o.props), "holes": {}, "native": "confirmed",
+                                     "signature": o.detail, "info": env.info})
+        res.wall_s = time.time() - t0
+        return res
     work = [[]]
     seen_fail = set()
     while work:
@@ -346,7 +366,10 @@ def explore_cell(lemma, cell, interp, timeout_ms=10000, max_paths=4000, replay=T
                 key = (o.clause,)
                 f = {"clause": o.clause, "props": sorted(o.props), "holes": o.holes}
                 if replay:
-                    f.update(native_replay(lemma, cell, o.holes, o.clause))
+                    f.update(native_replay(lemma, cell, o.holes, o.clause, props=o.props))
+                    if f["native"] == "spurious" and o.internal:
+                        f["native"] = "no-native-counterpart"
+                        f["signature"] = o.internal
                 res.failures.append(f)
     # bounded probes: when an obligation of this cell is undecided (or refuted without a native witness) look for a
     # concrete failing input natively among the lemma's probe inputs; a hit is a replayed violation
@@ -372,7 +395,7 @@ def _on_alarm(signum, frame):
     raise _Alarm()
 
 
-def native_replay(lemma, cell, holes, clause, timeout_s=5.0):
+def native_replay(lemma, cell, holes, clause, timeout_s=5.0, props=None):
     """re-run the lemma body natively on the real modules with the holes bound to `holes`"""
     env = NativeEnv(holes)
     out = {"native": "not-run", "signature": None, "info": {}}
@@ -389,6 +412,8 @@ def native_replay(lemma, cell, holes, clause, timeout_s=5.0):
         return out
     out["info"] = env.info
     fails = [o for o in env.outcomes if o.status == "failed"]
+    if props is not None:
+        fails = [o for o in fails if o.clause == clause or set(o.props) & set(props)]
     same = [o for o in fails if o.clause == clause]
     if same:
         out["native"] = "confirmed"
